@@ -69,4 +69,4 @@ QUERIES = [
                                "history": "[eval]? ; e1(v1) ; [eval]? ; e2(v2) ; observe all"},
           outside=["triples of edits"]),
 ]
-BUDGET = {"quick": 420, "thorough": 3000}
+BUDGET = {"quick": 420, "thorough": 1200}
